@@ -57,12 +57,6 @@ func (v *VerifApp) UseClientFilterMiddleware(m ...ClientFilterMiddleware) {
 	v.a.allFilters.UseClientFilterMiddleware(m...)
 }
 
-// VerifSetMsgID sets the process-wide request id counter.
-func VerifSetMsgID(v int32) { atomic.StoreInt32(&msgID, v) }
-
-// VerifMsgID reads the process-wide request id counter.
-func VerifMsgID() int32 { return atomic.LoadInt32(&msgID) }
-
 // VerifQueueLen reads the proxy's in-flight counter.
 func (s *ServantProxy) VerifQueueLen() int32 { return atomic.LoadInt32(&s.queueLen) }
 
